@@ -139,9 +139,15 @@ static std::string do_from(const Args &a, bool stream) {
     return guarded([&]() -> std::string {
         std::string out;
         if (stream) {
+            // pre=<n>: the stream already holds n bytes (a rendering made in place in the unused tail of the buffer must fit
+            // with its terminator: seeded C13-G); the observation is what the insertion appended
             ST::string_stream ss;
+            size_t pre = a.get("pre").empty() ? 0 : (size_t)a.num("pre");
+            std::string prefix(pre, 'x');
+            if (pre) ss.append(prefix.data(), prefix.size());
             if (isf) ss << f_of((uint32_t)bits); else ss << d_of(bits);
-            out.assign(ss.raw_buffer(), ss.size());
+            if (ss.size() < pre || std::string(ss.raw_buffer(), pre) != prefix) return "!stream-prefix-changed";
+            out.assign(ss.raw_buffer() + pre, ss.size() - pre);
         } else {
             ST::string s;
             if (isf) s = dflt ? ST::string::from_float(f_of((uint32_t)bits)) : ST::string::from_float(f_of((uint32_t)bits), c);
@@ -262,6 +268,10 @@ static void gen(Emitter &em, const Options &opt) {
         for (int c : {-1, (int)'e', (int)'f', (int)'g', (int)'E', (int)'F', (int)'G'}) EMIT(from_line("flt.from", ty, v, c));
         if (!v.isf) EMIT(from_line("flt.from", "fd", v, 'e'));
         EMIT(from_line("flt.ss", ty, v, -1));
+        // ... and into a stream filled so that the rendering ends exactly at, one before and one after each capacity
+        { std::string rend = ref_render(ref_format(false, -1, 'g'), val_double(v));
+          for (size_t cap : {(size_t)256, (size_t)512, (size_t)1024}) for (int d = -1; d <= 1; ++d)
+              if (cap + d >= rend.size()) EMIT(from_line("flt.ss", ty, v, -1) + " pre=" + std::to_string(cap + d - rend.size())); }
     }
     // invalid conversion letters -> bad_format
     for (int c : std::vector<int>{0, 'a', 'A', 'd', 'x', 'h', '%', ' ', 'n', 's', 0x80, 0xff, 'D', 'H'})
